@@ -205,7 +205,7 @@ CHECKS = {
             "one case = one algorithm + one sampled problem + 2-5 relation steps (each a base/variant pair) drawn from "
             "R1 same seed, R1p same seed after unrelated calls, R1s other seed with an explicit start, R1f fresh interpreter, "
             "R2 verbosity, R2d verbosity while the simulated deadline fires, R3 clock, R4 returned guess, R5 dense/sparse, "
-            "R6 positive scale (1e-9..1e8), R7 mode relabelling, R1g the guess in another form (GCP), R1h the data object solved before with other content and edited in place; data float or integer-typed counts; "
+            "R6 positive scale (1e-9..1e8), R7 mode relabelling, R1g the guess in another form (GCP), R1o the optimizer object used before on a larger problem (GCP), R1h the data object solved before with other content and edited in place; data float or integer-typed counts; "
             "non-trivial = at least 2 pairs compared; distinct = distinct digest of (problem, steps, observations)."
         ),
         "state_measure": "hash of (algorithm, relation, order, kind of initial guess, dimorder given?)",
